@@ -42,6 +42,14 @@ func VH_Pod(a []int) {
 		set.Spec.Template.Spec.Volumes = append(set.Spec.Template.Spec.Volumes, v1.Volume{Name: vClaimNames[0], VolumeSource: v1.VolumeSource{EmptyDir: &v1.EmptyDirVolumeSource{}}})
 		sym.Cover("template volume clashes with a claim template")
 	}
+	// a template may carry identity fields of its own; they must not survive in the pods
+	if len(a) > 2 && a[2] == 1 && sym.Pick("template.identity", 2) == 1 {
+		set.Spec.Template.Spec.Hostname = "zk"
+		set.Spec.Template.Spec.Subdomain = "legacy-svc"
+		set.Spec.Template.Name = "from-template"
+		set.Spec.Template.Namespace = "elsewhere"
+		sym.Cover("template carries hostname, subdomain, name and namespace")
+	}
 	ord := sym.Pick("ordinal", 5)
 	cur := vRevision(set, "A", 1)
 	upd := vRevision(set, "B", 2)
